@@ -30,6 +30,8 @@ def main():
     res = json.load(open(out_path)) if os.path.exists(out_path) else {}
     assert sh('git -C %s status --porcelain' % REPO).stdout.strip() == '', 'repo not clean'
     for prop, h in entries:
+        if os.environ.get('RESUME') and h in res and res[h].get('reported'):
+            continue
         p = sh('git -C %s show %s --format= -- pyerrors | git -C %s apply -R' % (REPO, h, REPO))
         if p.returncode != 0:
             sh('git -C %s checkout -- .' % REPO)
@@ -40,9 +42,15 @@ def main():
             print(h, prop, 'reverse patch does not apply (a later fix touches the same lines)')
             continue
         try:
-            r = sh('./check %s --tier quick' % prop, cwd=ROOT)
-            vio = [ln for ln in r.stdout.splitlines() if ln.startswith('VIOLATION')]
-            res[h] = {'property': prop, 'reported': bool(vio) and r.returncode == 1, 'line': vio[0] if vio else r.stdout.strip().splitlines()[-1][:200]}
+            try:
+                r = sh('timeout 600 ./check %s --tier quick' % prop, cwd=ROOT)
+                vio = [ln for ln in r.stdout.splitlines() if ln.startswith('VIOLATION')]
+                last = (r.stdout.strip().splitlines() or ['(no output; exit %d)' % r.returncode])[-1][:200]
+                if r.returncode == 124:
+                    last = 'check did not finish within 600 s on the unrepaired tree (exit 2 by the timeout convention)'
+                res[h] = {'property': prop, 'reported': bool(vio) and r.returncode == 1, 'line': vio[0] if vio else last}
+            except Exception as e:
+                res[h] = {'property': prop, 'reported': False, 'line': 'revert_fix: %r' % (e,)}
         finally:
             sh('git -C %s checkout -- .' % REPO)
         print(h, prop, 'reported' if res[h]['reported'] else 'MISSED', res[h]['line'][:120])
